@@ -166,7 +166,7 @@ AMode(c) == (c.mode + 1) % Len(c.shape)          \* the factor replaced by an "A
 StepOf(S, st, c, in) ==
     CASE st = "N" -> StepN(S)
       [] st = "M" -> [S EXCEPT !.fs[c.mode + 1] = MatMul(in.m, @)]
-      [] st = "A" -> [S EXCEPT !.fs[AMode(c) + 1] = in.g]
+      [] st = "A" -> [S EXCEPT !.fs[AMode(c) + 1] = ScaleT(@, 2)]        \* the represented tensor doubles, the columns are no longer unit
       [] OTHER    -> S                                   \* "F": signs move between columns and weights only
 SeqStates(c, in) ==      \* SeqStates[i] = state after step i (0: the initial object)
     LET ST[i \in 0..Len(c.steps)] == IF i = 0 THEN [hasw |-> in.hasw, w |-> in.w, fs |-> in.fs]
@@ -176,7 +176,6 @@ SeqStates(c, in) ==      \* SeqStates[i] = state after step i (0: the initial ob
 SeqOperandOK(c, in) ==
     /\ in.m.shape[2] = c.shape[c.mode + 1]
     /\ (Cardinality({i \in 1..Len(c.steps) : c.steps[i] = "M"}) > 1 => in.m.shape[1] = in.m.shape[2])
-    /\ in.g.shape = in.fs[AMode(c) + 1].shape
 
 \* ---------------------------------------------------------------------------- operand of another type than the decomposition
 \* omix: "int_float" = int64 factors (and weights / core), float64 operand with half-integer entries (numerators over 2);
@@ -229,9 +228,9 @@ TCfgs(root) ==
       [] root.op = "sequence" ->
             \* SEQUENCES of transforms applied to ONE CPTensor object (each step judged by its own clause):
             \*   "N" obj.normalize()                    "M" cp_mode_dot(obj, matrix, mode, copy=False)  (in place, same object)
-            \*   "A" obj.factors[amode] = new factor     "F" obj = cp_flip_sign(obj)
+            \*   "A" obj.factors[amode] = 2 * obj.factors[amode]   (a new array, NOT through cp[1] = ...)     "F" obj = cp_flip_sign(obj)
             {[BaseCfg EXCEPT !.op = "sequence", !.shape = s, !.rank = <<r>>, !.family = f, !.mode = m, !.odim = 2, !.steps = st] :
-                 r \in 1..TMaxRank, f \in {"generic", "zerocol", "zerow", "negw"}, m \in Modes0(s), st \in SeqSet}
+                 r \in 1..TMaxRank, f \in {"generic", "zerocol", "zerow"}, m \in Modes0(s), st \in SeqSet}
       [] root.op = "mode_dot" ->
             {[BaseCfg EXCEPT !.op = "cp_mode_dot", !.shape = s, !.rank = <<r>>, !.mode = m, !.operand = o[1], !.odim = o[2],
                              !.keep = o[3], !.copy = c, !.how = h] :
@@ -321,8 +320,7 @@ TCfgOK(c) ==
     /\ (c.mag # 0 => MagMove(kd, in))
     /\ CASE c.op = "sequence" ->
               LET x  == in @@ [m |-> GenM(IF Cardinality({i \in 1..Len(c.steps) : c.steps[i] = "M"}) > 1 THEN c.shape[c.mode + 1] ELSE 2,
-                                            c.shape[c.mode + 1]),
-                               g |-> GenT(in.fs[AMode(c) + 1].shape, 5)]
+                                            c.shape[c.mode + 1])]
                   ST == SeqStates(c, x) IN
               /\ SeqOperandOK(c, x)
               \* normalising and sign flipping never change the represented tensor; "M" is the mode product, "A" a new factor
@@ -330,6 +328,7 @@ TCfgOK(c) ==
                     /\ ValidCP(ST[i])
                     /\ (c.steps[i] \in {"N", "F"} => CPDense(ST[i]) = CPDense(ST[i - 1]))
                     /\ (c.steps[i] = "M" => CPDense(ST[i]) = ModeDot(CPDense(ST[i - 1]), x.m, c.mode))
+                    /\ (c.steps[i] = "A" => CPDense(ST[i]) = ScaleT(CPDense(ST[i - 1]), 2))
                     \* a normalised state is a fixed point of the zero pattern: normalising again changes nothing
                     /\ (c.steps[i] = "N" => StepN(ST[i]).w = ST[i].w /\ \A r \in 1..CPRank(ST[i]) : CompZero(ST[i], r) <=> CompZero(ST[i - 1], r))
          [] c.op = "svd_compress" ->
@@ -406,7 +405,7 @@ TNext == "shape" \in DOMAIN cfg /\ "family" \notin DOMAIN cfg
             cfg' \in {TExpand(c) : c \in base}
                      \cup {TExpand(MagTwin(c)) : c \in {x \in base : MagOp(x) /\ (Checksum(x) \div Thin) % 3 = 0}}
                      \cup {TExpand(OMixTwin(c)) : c \in {x \in base : x.op \in {"cp_mode_dot", "tucker_mode_dot"}
-                                                                       /\ (Checksum(x) \div Thin) % 3 # 0}}
+                                                                       /\ (Checksum(x) \div Thin) % 3 = 1}}
 TSpec == TInit /\ [][TNext]_cfg
 TSpecOK == "family" \in DOMAIN cfg => TCfgOK(cfg)
 =============================================================================
